@@ -23,7 +23,7 @@ for name in names:
     subprocess.check_call(['git', '-C', '/repo', 'worktree', 'add', '--detach', ev, 'HEAD'], stdout=subprocess.DEVNULL, stderr=subprocess.DEVNULL)
     try:
         subprocess.check_call(['git', 'apply', os.path.join(sd, 'patch.diff')], cwd=ev)
-        for p in (props or [meta['property']]):
+        for p in (props or [meta.get('breaks') or meta['property']]):
             t0 = time.time()
             env = dict(os.environ, FCVERIF_REPO=ev, FCVERIF_NO_VALIDATE='1', FCVERIF_NO_REREPLAY='1', FCVERIF_NO_ANCHORS='1', FCVERIF_EVIDENCE_DIR='/tmp/fcev/ev_re_%s' % name)
             r = subprocess.run(['./check', p, '--tier', tier], cwd='/verif', env=env, stdout=subprocess.PIPE, stderr=subprocess.STDOUT, universal_newlines=True)
